@@ -27,6 +27,8 @@ def run(c):
             stats["n"] += 1
             stats[ev.get("expect")] = stats.get(ev.get("expect"), 0) + 1
             stats["flips"] += ev.get("flips", 0)
+            if (ev.get("results") or {}).get("overlapped"):
+                stats["overlapped"] = stats.get("overlapped", 0) + 1
             return not ev.get("agree", False)
         res, deaths = c.run_worker(fam, items, keep=keep, env=env, timeout=1800)
         d = dict(items)
@@ -70,6 +72,8 @@ def run(c):
         # the thorough layout space of C01 (3 sections, more sizes / trailing lengths / header positions), every third layout without a certificate table
         lay = [l for l in c01.layouts_parallel(c, "t", "layouts-for-signing") if '"cert":0' in l]
         lay = [l for k, l in enumerate(lay) if (k + c.seed) % 3 == 0]
+    # ... and the layouts whose headers are longer than one 4 KiB page
+    lay += [l for l in c01.layouts(c, "BigHdrInit", "q" if c.quick else "t", "big-header-layouts-for-signing", invs="INVARIANTS InsideFile PadTo8\n") if '"cert":0' in l]
     items = [(1000000 + k, '{"sc":%d,' % (1000000 + k) + l[1:]) for k, l in enumerate(lay)]
     lst = {"n": 0, "flips": 0}
 
@@ -102,6 +106,8 @@ def run(c):
     c.cov["traces_validated_against_impl"] = sum(s["n"] for s in stats_all.values())
     c.cov["distinct_nontrivial"] = stats_all["imgsym"].get("must_not", 0)
     c.cov["by_family"] = stats_all
+    if not stats_all["imgsym"].get("overlapped") and not c.violations:
+        raise vf.FrameworkError("vacuity: the overlapped verification (two verifications with a fixed interleaving) was never arranged")
     c.cov["exhaustive"] = True
     c.cov["rule"] = ("every (image, signature blob, verifying certificate) case of spec/MC_Pkcs7Sym.tla with an image: 2 images x blobs with one or two signer infos (honest, transplanted from "
                      "the other image, digest rewritten, attacker-made under the same issuer+serial, unsigned content) x 3 certificates; VerifyImage = SPC digest is this image's /\\ RFCVerify. "
